@@ -71,7 +71,8 @@ RootD(s, t, d) == IF t < NT0(s) THEN t
                   ELSE RootD(s, ROps(s)[CHOOSE k \in InsertedProducer(s, t) : TRUE].ins[1], d - 1)
 Root(s, t) == IF t = -1 THEN -1 ELSE RootD(s, t, 8)
 OrigOps(s) == SelectSeq(ROps(s), LAMBDA o : o.orig # -1)
-Skeleton(s) ==
+\* (a) contracting the inserted operators yields the input operators, wired to the same original tensors
+SkelOps(s) ==
   LET origs == OrigOps(s) IN
   /\ Len(origs) = NOps0(s)
   /\ \A i \in 1..NOps0(s) :
@@ -79,22 +80,35 @@ Skeleton(s) ==
        /\ origs[i].sig = G[s].ops[i].sig                         \* same operator, same options
        /\ [j \in 1..Len(origs[i].ins) |-> Root(s, origs[i].ins[j])] = G[s].ops[i].ins
        /\ origs[i].outs = G[s].ops[i].outs
+\* (b) no original tensor renamed, reshaped or dropped
+SkelTensors(s) ==
   /\ NT(s) >= NT0(s)
-  /\ \A t \in 1..NT0(s) : R[s].nm[t] = G[s].nm[t] /\ R[s].shp[t] = G[s].shp[t]      \* originals keep name, shape
-  \* I/O contract: count, order, names, shapes
+  /\ \A t \in 1..NT0(s) : R[s].nm[t] = G[s].nm[t] /\ R[s].shp[t] = G[s].shp[t]
+\* (c) number and order of inputs / outputs, each output denotes (the quantised or dequantised form of) the same tensor
+SkelIO(s) ==
   /\ R[s].gins = G[s].gins
   /\ Len(R[s].outs) = Len(G[s].gouts)
-  /\ \A k \in 1..Len(R[s].outs) :
-       LET t == R[s].outs[k] IN
-       /\ Root(s, t) = G[s].gouts[k]
-       /\ t \in 0..(NT(s)-1) => /\ R[s].nm[t+1] = G[s].nm[G[s].gouts[k]+1]
-                                /\ R[s].shp[t+1] = G[s].shp[G[s].gouts[k]+1]
-  \* every signature entry denotes the tensor of the corresponding subgraph input/output
-  /\ R[s].sigin = R[s].gins
-  /\ R[s].sigout = R[s].outs
-  \* model I/O stays float32 unless a rule covers INPUT / OUTPUT
+  /\ \A k \in 1..Len(R[s].outs) : Root(s, R[s].outs[k]) = G[s].gouts[k]
+\* (d) names and shapes of the outputs
+SkelOutShape(s, k) == LET t == R[s].outs[k] IN t \in 0..(NT(s)-1) => R[s].shp[t+1] = G[s].shp[G[s].gouts[k]+1]
+SkelOutName(s, k) == LET t == R[s].outs[k] IN t \in 0..(NT(s)-1) => R[s].nm[t+1] = G[s].nm[G[s].gouts[k]+1]
+SkelIONames(s) == Len(R[s].outs) = Len(G[s].gouts) => \A k \in 1..Len(R[s].outs) : SkelOutName(s, k) /\ SkelOutShape(s, k)
+\* (e) every signature entry denotes the tensor of the corresponding subgraph input/output
+SkelSig(s) == R[s].sigin = R[s].gins /\ R[s].sigout = R[s].outs
+\* (f) model I/O stays float32 unless a rule covers INPUT / OUTPUT
+SkelIOType(s) ==
   /\ inmode.m = "NOQ" => \A k \in 1..Len(R[s].gins) : R[s].dt[R[s].gins[k]+1] = "f32"
   /\ outmode.m = "NOQ" => \A k \in 1..Len(R[s].outs) : R[s].outs[k] \in 0..(NT(s)-1) => R[s].dt[R[s].outs[k]+1] = "f32"
+Skeleton(s) == SkelOps(s) /\ SkelTensors(s) /\ SkelIO(s) /\ SkelIONames(s) /\ SkelSig(s) /\ SkelIOType(s)
+
+\* Known finding F7 (recorded, not repaired; /verif/known_findings.json): when a QUANTIZE/DEQUANTIZE is inserted
+\* at graph output k, the output becomes the inserted tensor, named <original>_quantized / <original>_dequant.
+\* The clause that fails is exactly SkelOutName(s, k), and only for such an output.
+KF7(s, k) == R[s].outs[k] >= NT0(s) /\ InsertedProducer(s, R[s].outs[k]) # {}
+SkelIONamesModKF(s) == Len(R[s].outs) = Len(G[s].gouts) =>
+                         \A k \in 1..Len(R[s].outs) : SkelOutShape(s, k) /\ (SkelOutName(s, k) \/ KF7(s, k))
+KF7Hit(s) == Len(R[s].outs) = Len(G[s].gouts) /\ \E k \in 1..Len(R[s].outs) : ~SkelOutName(s, k) /\ KF7(s, k)
+SkeletonModKF(s) == SkelOps(s) /\ SkelTensors(s) /\ SkelIO(s) /\ SkelIONamesModKF(s) /\ SkelSig(s) /\ SkelIOType(s)
 
 \* ------------------------------------------------------------------ C03
 RoleOf(s, t) == LET r == Root(s, t) IN IF r \in 0..(NT0(s)-1) THEN G[s].trole[r+1] ELSE "?"
